@@ -790,7 +790,8 @@ impl<'a> VisitMut for Norm<'a> {
                 before.extend(self.anchor(&format!("before.{}#{}", nm, k)));
                 after.extend(self.anchor(&format!("after.{}#{}", nm, k)));
             }
-            if let Stmt::Expr(Expr::Continue(_), _) = &s {
+            if let Stmt::Expr(Expr::Continue(c0), _) = &s {
+                { let c1: &ExprContinue = c0; self.sig("continue", c1); }
                 let k = { let k = self.call_no.entry("continue".to_string()).or_default(); *k += 1; *k };
                 before.extend(self.anchor(&format!("continue#{}", k)));
             }
